@@ -1,107 +1,17 @@
 import Verif.Util.Proto
 import Verif.Model.Codec.CValueSx
 import Verif.Model.Codec.JsonText
+import Verif.Util.CodecDrv
 /-! Driver for stream `json` (C41): ops `rt <value sx>`, `dec <json text>`, `mutb <hex>`. -/
-open Verif.Proto Verif.Model.Codec
+open Verif.Proto Verif.Model.Codec Verif.Util.CodecDrv
 
 namespace DrvJson
-
-mutual
-def tyAny (p : CType → Bool) : CType → Bool
-  | .opt t => p (.opt t) || tyAny p t
-  | .varr t => p (.varr t) || tyAny p t
-  | .carr n t => p (.carr n t) || tyAny p t
-  | .dict k v => p (.dict k v) || tyAny p k || tyAny p v
-  | .range t => p (.range t) || tyAny p t
-  | .cap t => p (.cap t) || tyAny p t
-  | .ref a t => p (.ref a t) || tyAny p t
-  | .inter ts => p (.inter ts) || tysAny p ts
-  | .func v tps ps r => p (.func v tps ps r) || tpsAny p tps || psAny p ps || tyAny p r
-  | .comp k id e fs is => p (.comp k id e fs is) || tyAny p e || fsAny p fs || isAny p is
-  | t => p t
-def tysAny (p : CType → Bool) : Types → Bool
-  | .nil => false | .cons t r => tyAny p t || tysAny p r
-def fsAny (p : CType → Bool) : Fields → Bool
-  | .nil => false | .cons _ t r => tyAny p t || fsAny p r
-def psAny (p : CType → Bool) : Params → Bool
-  | .nil => false | .cons _ _ t r => tyAny p t || psAny p r
-def isAny (p : CType → Bool) : Inits → Bool
-  | .nil => false | .cons ps r => psAny p ps || isAny p r
-def tpsAny (p : CType → Bool) : TParams → Bool
-  | .nil => false | .cons _ b r => tyAny p b || tpsAny p r
-end
-
-mutual
-/-- does some value node satisfy `pv`, or some type embedded in a type value / capability / function satisfy `pt` -/
-def valAny (pv : CValue → Bool) (pt : CType → Bool) : CValue → Bool
-  | .some v => pv (.some v) || valAny pv pt v
-  | .arr t vs => pv (.arr t vs) || valsAny pv pt vs
-  | .dict t kvs => pv (.dict t kvs) || pairsAny pv pt kvs
-  | .comp t vs => pv (.comp t vs) || valsAny pv pt vs
-  | .range t s e q => pv (.range t s e q) || valAny pv pt s || valAny pv pt e || valAny pv pt q
-  | .type t => pv (.type t) || tyAny pt t
-  | .cap i a t => pv (.cap i a t) || tyAny pt t
-  | .func t => pv (.func t) || tyAny pt t
-  | v => pv v
-def valsAny (pv : CValue → Bool) (pt : CType → Bool) : Values → Bool
-  | .nil => false | .cons v r => valAny pv pt v || valsAny pv pt r
-def pairsAny (pv : CValue → Bool) (pt : CType → Bool) : Pairs → Bool
-  | .nil => false | .cons k v r => valAny pv pt k || valAny pv pt v || pairsAny pv pt r
-end
-
-def hasNilBound : TParams → Bool
-  | .nil => false
-  | .cons _ .nil _ => true
-  | .cons _ _ r => hasNilBound r
-
-/-- a function type with a type parameter that has no bound -/
-def isUnboundTParamFunc : CType → Bool
-  | .func _ tps _ _ => hasNilBound tps
-  | _ => false
-
-def isAttachmentValue : CValue → Bool
-  | .comp (.comp .attachment _ _ _ _) _ => true
-  | _ => false
-
-def kindTag : CValue → String
-  | .nilv => "v-nil" | .void => "v-void" | .none => "v-none" | .some _ => "v-some" | .bool _ => "v-bool"
-  | .str _ => "v-str" | .char _ => "v-char" | .addr _ => "v-addr" | .int k _ => "v-" ++ k | .fix k _ => "v-" ++ k
-  | .arr _ _ => "v-array" | .dict _ _ => "v-dict"
-  | .comp (.comp k _ _ _ _) _ => "v-" ++ k.jsonKind
-  | .comp _ _ => "v-comp?" | .path _ _ => "v-path" | .cap _ _ _ => "v-cap" | .type _ => "v-type"
-  | .range _ _ _ _ => "v-range" | .func _ => "v-func"
-
-def hexToString (h : String) : Option String := do
-  let bs ← parseHex h
-  String.fromUTF8? (ByteArray.mk bs.toArray)
-
-/-- split `a:b:rest` at the first two colons -/
-def split3 (s : String) : Option (String × String × String) :=
-  match s.splitOn ":" with
-  | a :: b :: rest => some (a, b, ":".intercalate rest)
-  | _ => none
-
-/-- a composite type one of whose initializer parameters mentions a composite type that is also
-mentioned in its fields: the encoder visits fields before initializers (and writes the bare type ID
-in the initializer), the decoder initializers before fields -/
-def hasSeenInInits : CType → Bool
-  | .comp _ _ _ fs is =>
-    isAny (fun t => match t with
-      | .comp _ id _ _ _ => fsAny (fun u => match u with | .comp _ id' _ _ _ => id == id' | _ => false) fs
-      | _ => false) is
-  | _ => false
-
-def classifyDecErr (v : CValue) : String :=
-  if valAny isAttachmentValue (fun _ => false) v then "json-attachment-not-decodable"
-  else if valAny (fun _ => false) hasSeenInInits v then "json-initializer-repeats-field-type-not-decodable"
-  else if valAny (fun _ => false) isUnboundTParamFunc v then "json-typeparam-without-bound-not-decodable"
-  else "json-decoder-rejects-own-encoding"
 
 def judgeRt (sx : String) (go : String) : Verdict :=
   match parseValue sx with
   | none => .skip "bad-op"
   | some v =>
-    let tags := [kindTag v]
+    let tags := [kindTagJ v]
     let spec := showValue (erase v)
     if go == "panic" || go == "hang" then .violation "json-encode-or-decode-panic" "value-or-error" tags
     else if go == "encerr" then .modelDiff "ok" ("enc-err" :: tags)
@@ -140,7 +50,7 @@ def judgeDec (text : String) (go : String) : Verdict :=
     match decode tree with
     | .ok d =>
       let m := "ok:" ++ showValue d
-      if go == m then .ok ["!nt", "mut", "mut-ok", kindTag d] else .modelDiff m ["mut", "mut-ok"]
+      if go == m then .ok ["!nt", "mut", "mut-ok", kindTagJ d] else .modelDiff m ["mut", "mut-ok"]
     | .error .err => if go == "err" then .ok ["!nt", "mut", "mut-err"] else .modelDiff "err" ["mut", "mut-err"]
     | .error (.ood why) => .skip ("ood-" ++ why)
 
